@@ -86,6 +86,9 @@ def push_negatives(arr, axis):
 
     """
     arr = np.asarray(arr)
+    if arr.dtype.kind == "i" and arr.dtype.itemsize < 8:
+        # the shifted values may not fit a narrow integer type (int8 10 + 127)
+        arr = arr.astype(np.int64)
     mins = np.min(arr, axis=axis, keepdims=True)
     delta = (mins < 0) * mins
     return arr - delta
